@@ -38,6 +38,9 @@ func main() {
 		*tier = t
 	}
 	var code int
+	if os.Getenv("VERIF_SUPERVISED") == "" && os.Getenv("VERIF_WORKER") == "" && *c20Child < 0 && *c12Journal == "" && *svcReplay == "" && *prop != "" {
+		os.Exit(supervise(*prop, *tier))
+	}
 	if *c20Child >= 0 {
 		os.Exit(c20.Child(*c20Child))
 	}
